@@ -1,8 +1,8 @@
 #!/bin/bash
 # usage: tools/run_all.sh quick|thorough  -> one line per check, log in target/run_all_<tier>.log
 tier=${1:-quick}
-cd /verif
-: > target/run_all_$tier.log
+cd "$(dirname "$0")/.."
+mkdir -p target; : > target/run_all_$tier.log
 for i in 01 02 03 04 05 06 07 08 09 10 11 12 13 14 15 16 17 18 19 20; do
   s=$(date +%s)
   timeout 7200 ./check C$i --tier $tier > target/last_C$i.$tier.log 2>&1; code=$?
